@@ -1,6 +1,7 @@
 package main
 
 import (
+	"sync"
 	"regexp"
 	"fmt"
 	"go/token"
@@ -243,6 +244,9 @@ func (vc *VC) finish(top *Frame) {
 		sort.Strings(lk)
 		for _, k := range lk {
 			l := st.links[k]
+			if l.heap {
+				continue
+			}
 			mn := vc.memName(l.elem)
 			cur := vc.memTerm(st, l.elem)
 			ent := vc.entry.mem[mn]
@@ -631,7 +635,23 @@ func stripComments(t string) string {
 
 // prunedPrelude drops the function definitions / declarations (and the axioms about them) that nothing in this VC's
 // context or obligations refers to. Sound: an unused definition constrains nothing; a dropped axiom only weakens.
+var pruneMu sync.Mutex
+
 func (vc *VC) prunedPrelude(pre string) string {
+	pruneMu.Lock()
+	defer pruneMu.Unlock()
+	if vc.pruned == nil {
+		vc.pruned = map[string]string{}
+	}
+	if out, ok := vc.pruned[pre]; ok {
+		return out
+	}
+	out := vc.prunedPrelude1(pre)
+	vc.pruned[pre] = out
+	return out
+}
+
+func (vc *VC) prunedPrelude1(pre string) string {
 	if vc.needed == nil {
 		need := map[string]bool{}
 		add := func(t string) {
